@@ -179,10 +179,11 @@ theorem C03_failed_move_keeps_file (s : St) (p : Path) (a : Addr) (m : Method) (
     s.carryOne p a m force = (s, (s.moveToCache p a).2) ∧ (s.carryOne p a m force).2 ≠ .ok ∧
     (s.carryOne p a m force).1.ws p = s.ws p := by
   have hl : s.linksTo p a = false := by simp [St.linksTo, hc]
+  have hh : s.hardLinkOf p a = false := by simp [St.hardLinkOf, hc]
   have h1 := moveToCache_failed_unchanged s p a hf
   have key : s.carryOne p a m force = (s, (s.moveToCache p a).2) := by
     unfold St.carryOne St.carryOneMove
-    simp only [hl, hc, Option.isSome_none, Bool.false_eq_true, if_false]
+    simp only [hl, hh, hc, Option.isSome_none, Bool.false_eq_true, if_false, Bool.and_false]
     generalize hres : s.moveToCache p a = res at hf h1 ⊢
     obtain ⟨s1, o1⟩ := res
     simp only at hf h1 ⊢
